@@ -11,8 +11,11 @@ import GdVerif.Spec.Faults
       then either falls silent (the next receive times out) or the client's next send fails;
       `answered = 0` is a fault at the initial request, `answered = (number of challenge rounds)` a fault at the last
       exchange of the attempt — exactly the two stages `props/families/valve.py: c10_build` injects;
+      before it falls silent the server may still deliver SOME of the fragments of a split reply (`got`: any selection
+      of the reply's datagrams, each at most once, in any order, at least one missing — a reply that stops half way);
     * the end of the unit (`Ending`): the valid exchange, nothing at all (every attempt failed), or a malformed
-      datagram (shorter than the 5 bytes of a packet header) after some challenge rounds.
+      datagram (shorter than the 5 bytes of a packet header) after some challenge rounds — and possibly after some of
+      the fragments of the split reply.
 
   `faultyScript` / `faultyFaults` are what the peer delivers and which sends fail (the two arguments of `Net.init`),
   `faultyExpected` the outcome the property prescribes, `faultySends` every datagram the client puts on the wire with
@@ -28,6 +31,8 @@ structure Attempt where
   answered : Nat
   /-- `false`: then the server is silent; `true`: then the client's send fails -/
   sendFault : Bool
+  /-- fragments of the unit's split reply that still arrive before the silence (`[]`: none) -/
+  got : List Bytes
   deriving Repr, DecidableEq
 
 inductive Ending
@@ -35,8 +40,9 @@ inductive Ending
   | valid
   /-- nothing more is scripted for this unit: every attempt failed -/
   | gaveUp
-  /-- after `answered` challenge rounds the server sends `datagram`, which is not a packet -/
-  | malformed (answered : Nat) (datagram : Bytes)
+  /-- after `answered` challenge rounds (and the fragments `got` of the split reply) the server sends `datagram`, which
+  is not a packet -/
+  | malformed (answered : Nat) (got : List Bytes) (datagram : Bytes)
   deriving Repr, DecidableEq
 
 structure UnitPlan where
@@ -55,7 +61,7 @@ def challengeData (x : Exchange) (j : Nat) : List Delivery :=
   (x.challenges.take j).map fun c => .data (challengeReply c)
 
 def Attempt.deliveries (x : Exchange) (a : Attempt) : List Delivery :=
-  challengeData x a.answered ++ (if a.sendFault then [] else [.silence])
+  challengeData x a.answered ++ a.got.map .data ++ (if a.sendFault then [] else [.silence])
 
 /-- the send flags one failed attempt consumes: every send goes out but, for a send fault, the last -/
 def Attempt.faults (x : Exchange) (a : Attempt) : List Bool :=
@@ -67,12 +73,12 @@ def Attempt.error (a : Attempt) : ErrKind := if a.sendFault then .packetSend els
 def Ending.deliveries (x : Exchange) (arrival : List Bytes) : Ending → List Delivery
   | .valid => (exchangeAs x arrival).map .data
   | .gaveUp => []
-  | .malformed j m => challengeData x j ++ [.data m]
+  | .malformed j got m => challengeData x j ++ got.map .data ++ [.data m]
 
 def Ending.faults (x : Exchange) : Ending → List Bool
   | .valid => List.replicate (1 + x.challenges.length) false
   | .gaveUp => []
-  | .malformed j _ => List.replicate ((x.challenges.take j).length + 1) false
+  | .malformed j _ _ => List.replicate ((x.challenges.take j).length + 1) false
 
 def UnitPlan.deliveries (x : Exchange) (arrival : List Bytes) (p : UnitPlan) : List Delivery :=
   p.fails.flatMap (Attempt.deliveries x) ++ p.ending.deliveries x arrival
@@ -98,30 +104,36 @@ def UnitPlan.error (p : UnitPlan) : Option ErrKind :=
   match p.ending with
   | .valid => none
   | .gaveUp => some (lastError Attempt.error p.fails)
-  | .malformed _ _ => some .packetUnderflow
+  | .malformed _ _ _ => some .packetUnderflow
 
-/-- the plans C10 speaks about for a retry count: a unit that is answered (validly or not) had at most `retries`
-timeouts before, a unit that is given up had exactly `retries + 1`; a malformed datagram is shorter than a packet
-header -/
-def wfUnit (retries : Nat) (p : UnitPlan) : Bool :=
-  match p.ending with
-  | .valid => p.fails.length ≤ retries
-  | .gaveUp => p.fails.length == retries + 1
-  | .malformed _ m => p.fails.length ≤ retries && m.length < 5
+/-- a failed attempt of a unit whose reply travels as the datagrams `pool`: what still arrives before the silence is
+nothing or an incomplete selection of them (`Faults.partOf`; nothing at all when the attempt ends on a failed send) -/
+def Attempt.wf (pool : List Bytes) (a : Attempt) : Bool :=
+  if a.sendFault then a.got.isEmpty else partOf a.got pool
 
-def wfPlan (retries : Nat) (cfg : Config) (plan : Plan) : Bool :=
-  wfUnit retries plan.info &&
-  (cfg.gather.players == .skip || wfUnit retries plan.players) &&
-  (cfg.gather.rules == .skip || wfUnit retries plan.rules)
+/-- the plans C10 speaks about for a retry count and a unit whose reply travels as the datagrams `pool`: a unit that is
+answered (validly or not) had at most `retries` timeouts before, a unit that is given up had exactly `retries + 1`; a
+malformed datagram is shorter than a packet header and arrives before the reply is complete -/
+def wfUnit (retries : Nat) (pool : List Bytes) (p : UnitPlan) : Bool :=
+  p.fails.all (Attempt.wf pool) &&
+  (match p.ending with
+   | .valid => p.fails.length ≤ retries
+   | .gaveUp => p.fails.length == retries + 1
+   | .malformed _ got m => p.fails.length ≤ retries && m.length < 5 && partOf got pool)
+
+def wfPlan (retries : Nat) (cfg : Config) (st : State) (plan : Plan) : Bool :=
+  wfUnit retries (infoDatagrams cfg st) plan.info &&
+  (cfg.gather.players == .skip || wfUnit retries (playersDatagrams cfg st) plan.players) &&
+  (cfg.gather.rules == .skip || wfUnit retries (rulesDatagrams cfg st) plan.rules)
 
 /-- the same, asked only of the units the query reaches (a unit behind the one that ends the query is never run: its
 plan, and whatever else the script holds from there on, is irrelevant) -/
 def wfPlanReached (retries : Nat) (cfg : Config) (st : State) (plan : Plan) : Bool :=
-  wfUnit retries plan.info &&
+  wfUnit retries (infoDatagrams cfg st) plan.info &&
   (plan.info.error.isSome || !appIdOk cfg.engine cfg.gather st.info.appid ||
-    ((cfg.gather.players == .skip || wfUnit retries plan.players) &&
+    ((cfg.gather.players == .skip || wfUnit retries (playersDatagrams cfg st) plan.players) &&
      ((cfg.gather.players == .enforce && plan.players.error.isSome) ||
-       cfg.gather.rules == .skip || wfUnit retries plan.rules)))
+       cfg.gather.rules == .skip || wfUnit retries (rulesDatagrams cfg st) plan.rules)))
 
 /-- `maybe_gather!` over a unit's end -/
 def sectionOutcome (t : Toggle) (p : UnitPlan) (v : α) : Res (Option α) :=
@@ -160,14 +172,14 @@ def requestsUpTo (u : Request) (x : Exchange) (j : Nat) : List Bytes :=
   unitRequest u none :: (x.challenges.take j).map fun c => unitRequest u (some c)
 
 /-- the sends of one failed attempt: the initial request, then one request per challenge answered; all go out, but the
-last one when the attempt ends on a send fault -/
+last one when the attempt ends on a send fault (fragments that still arrive cause no send) -/
 def Attempt.sends (u : Request) (x : Exchange) (a : Attempt) : List (Bytes × Bool) :=
   flagLast (requestsUpTo u x a.answered) a.sendFault
 
 def Ending.sends (u : Request) (x : Exchange) : Ending → List (Bytes × Bool)
   | .valid => (unitRequest u none :: x.challenges.map fun c => unitRequest u (some c)).map (·, false)
   | .gaveUp => []
-  | .malformed j _ => (requestsUpTo u x j).map (·, false)
+  | .malformed j _ _ => (requestsUpTo u x j).map (·, false)
 
 def UnitPlan.sends (u : Request) (x : Exchange) (p : UnitPlan) : List (Bytes × Bool) :=
   p.fails.flatMap (Attempt.sends u x) ++ p.ending.sends u x
@@ -189,6 +201,10 @@ def Plan.unit (plan : Plan) : Request → UnitPlan
 
 def exchangeOf (cfg : Config) : Request → Exchange
   | .info => cfg.info | .players => cfg.players | .rules => cfg.rules
+
+/-- the datagrams the reply of a unit travels as -/
+def poolOf (cfg : Config) (st : State) : Request → List Bytes
+  | .info => infoDatagrams cfg st | .players => playersDatagrams cfg st | .rules => rulesDatagrams cfg st
 
 /-- the gathering toggle of a unit (the info request is always made and always required) -/
 def toggleOf (cfg : Config) : Request → Toggle
